@@ -329,9 +329,16 @@ def bvec (axyz : List (List K)) (b : List Int) : List K := RefineNf.vec axyz (b.
 def dotK (a b : List K) : K := Py.Nf.sumK (List.zipWith (fun x y => x * y) a b)
 /-- `np.clip(x, -1, 1)` -/
 def clip1 (x : K) : K := let y := if x < (0 : K) - (1 : K) then (0 : K) - (1 : K) else x; if (1 : K) < y then (1 : K) else y
-/-- the divisor of entry (i, j): the 1×1 matrix product of the two norms, plus `eps` -/
-def angDen (norm : List K → K) (axyz : List (List K)) (eps : K) (bi bj : List Int) : K :=
-  Py.Nf.sumK [norm (bvec axyz bi) * norm (bvec axyz bj)] + eps
+/-- the product of the two norms of entry (i, j), formed as the 1×1 matrix product the source forms -/
+def angNd (norm : List K → K) (axyz : List (List K)) (bi bj : List Int) : K :=
+  Py.Nf.sumK [norm (bvec axyz bi) * norm (bvec axyz bj)]
+/-- the DEGENERATE entries (`vector_norm_dot == 0`: a branch of length zero): the product of the norms is neither below nor above 0 -/
+def angDeg (norm : List K → K) (axyz : List (List K)) (bi bj : List Int) : Bool :=
+  !(decide (angNd norm axyz bi bj < 0) || decide (0 < angNd norm axyz bi bj))
+/-- the divisor of entry (i, j): `np.where(vector_norm_dot == 0, 1, vector_norm_dot)` - the product of the two norms, and 1 where it is 0.
+No `eps`: nothing absolute is added to the product, so the quotient does not depend on the length unit. -/
+def angDen (norm : List K → K) (axyz : List (List K)) (bi bj : List Int) : K :=
+  if angDeg norm axyz bi bj then 1 else angNd norm axyz bi bj
 
 theorem mapOpt_zip_map {α β γ δ : Type} (f : β × γ → Option δ) (a : α → β) (b : α → γ) (g : α → δ) : ∀ l : List α,
     (∀ x ∈ l, f (a x, b x) = some (g x)) → Py.mapOpt f (List.zip (l.map a) (l.map b)) = some (l.map g) := by
@@ -363,6 +370,14 @@ theorem div2_tab {α : Type} (F : Py.Fld K) (l : List α) (f h : α → α → K
   intro y hy
   simp [Py.fdiv, hne x hx y hy]
 
+theorem whereS2_tab {α : Type} (l : List α) (m : α → α → Bool) (c : K) (h : α → α → K) :
+    Py.Nf.whereS2 (l.map fun x => l.map (m x)) c (l.map fun x => l.map (h x))
+      = some (l.map fun x => l.map fun y => if m x y then c else h x y) := by
+  simp only [Py.Nf.whereS2, List.length_map, if_true]
+  apply mapOpt_zip_map
+  intro x _
+  simp [List.zipWith_map]
+
 /-- a branch whose first and last node are rows of the table with `d` coordinates -/
 def GoodBr (axyz : List (List K)) (d : Nat) (b : List Int) : Prop :=
   b ≠ [] ∧ RefineNf.Valid axyz (b.headD 0) ∧ RefineNf.Valid axyz (b.getLastD 0) ∧
@@ -393,15 +408,15 @@ theorem angle_loop (F : Py.Fld K) (norm : List K → K) (acos : K → K) (axyz :
     rw [hs]; simp [bvec, RefineNf.vec]
 
 /-- **`BranchFeatures.calc_angle` as translated**: entry (i, j) of the result is `acos` of the clipped quotient of the dot product of the two
-branch vectors (each from the branch's FIRST node to its LAST node: `br[-1].xyz() − br[0].xyz()`) by the product of their norms plus `eps`,
-exactly as the source writes it (the product of the norms is formed as a 1×1 matrix product, `eps` is added to the divisor, the quotient is
-clipped to [−1, 1]); a zero divisor raises.  Every list of branches (each with valid end rows), no size bound. -/
+branch vectors (each from the branch's FIRST node to its LAST node: `br[-1].xyz() − br[0].xyz()`) by the product of their norms, exactly as
+the source writes it (the product of the norms is formed as a 1×1 matrix product; where it is 0 the divisor is 1 instead - `angDen`; the
+quotient is clipped to [−1, 1]); nothing raises (`0 < 1`: the divisor is never 0); `eps` is not used.  Every list of branches (each with valid
+end rows), no size bound. -/
 theorem calc_angle_refines (F : Py.Fld K) (norm : List K → K) (acos : K → K) (axyz : List (List K)) (d : Nat) (brs : List (List Int)) (eps : K)
-    (hg : ∀ b ∈ brs, GoodBr axyz d b)
-    (hne : ∀ bi ∈ brs, ∀ bj ∈ brs, angDen norm axyz eps bi bj < 0 ∨ 0 < angDen norm axyz eps bi bj) :
+    (h01 : (0 : K) < 1) (hg : ∀ b ∈ brs, GoodBr axyz d b) :
     nf_calc_angle F norm acos axyz brs eps
       = some (brs.map fun bi => brs.map fun bj =>
-          acos (clip1 (F.div (dotK (bvec axyz bi) (bvec axyz bj)) (angDen norm axyz eps bi bj)))) := by
+          acos (clip1 (F.div (dotK (bvec axyz bi) (bvec axyz bj)) (angDen norm axyz bi bj)))) := by
   obtain ⟨b', hs⟩ := angle_loop F norm acos axyz d brs
     { (default : nf_calc_angle.V K) with axyz := axyz, branches := brs, eps := eps, c0_ := [] } rfl hg
   have hvd : ∀ r ∈ brs.map (bvec axyz), r.length = d := by
@@ -417,15 +432,27 @@ theorem calc_angle_refines (F : Py.Fld K) (norm : List K → K) (acos : K → K)
     obtain ⟨_, _, rfl⟩ := hr
     rfl
   have hm2 := matmulT_tab _ _ 1 hn1 hn1
-  have hd := div2_tab F brs (fun bi bj => dotK (bvec axyz bi) (bvec axyz bj))
-    (fun bi bj => Py.Nf.sumK [norm (bvec axyz bi) * norm (bvec axyz bj)] + eps) hne
+  let nd : List Int → List Int → K := fun bi bj => Py.Nf.sumK [norm (bvec axyz bi) * norm (bvec axyz bj)]
+  let dg : List Int → List Int → Bool := fun bi bj => !(decide (nd bi bj < 0) || decide (0 < nd bi bj))
+  have hne : ∀ bi ∈ brs, ∀ bj ∈ brs, (if dg bi bj then (1 : K) else nd bi bj) < 0 ∨ 0 < (if dg bi bj then (1 : K) else nd bi bj) := by
+    intro bi _ bj _
+    by_cases h1 : nd bi bj < 0
+    · simp [dg, h1]
+    · by_cases h2 : 0 < nd bi bj
+      · simp [dg, h2]
+      · simp [dg, h1, h2, h01]
+  have hw := whereS2_tab brs dg (1 : K) nd
+  have hd := div2_tab F brs (fun bi bj => dotK (bvec axyz bi) (bvec axyz bj)) (fun bi bj => if dg bi bj then (1 : K) else nd bi bj) hne
   simp only [nf_calc_angle, nf_calc_angle.body, Py.seq, Py.bindS, Py.bind]
   rw [hs]
   simp only [List.nil_append, hm1, hm2]
-  simp only [Py.Nf.normRowsKeep, Py.Nf.addScalar2, List.map_map, Function.comp_def, dotK, List.zipWith_cons_cons, List.zipWith_nil_right] at hd ⊢
+  simp only [Py.Nf.normRowsKeep, Py.Nf.eqScalar2, List.map_map, Function.comp_def, dotK, List.zipWith_cons_cons, List.zipWith_nil_right,
+    nd, dg] at hw hd ⊢
+  rw [hw]
+  simp only []
   rw [hd]
-  simp [Py.finish, Py.Nf.clip2, Py.Nf.map2, clip1, List.map_map, Function.comp_def, angDen, dotK]
+  simp [Py.finish, Py.Nf.clip2, Py.Nf.map2, clip1, List.map_map, Function.comp_def, angDen, angDeg, angNd, dotK]
   intro a _ b _
-  congr
+  congr <;> exact propext (decide_eq_false_iff_not).symm
 
 end RefineNf2
